@@ -109,6 +109,15 @@ inductive Ctl where
 
 abbrev M := Except Err
 
+/-- an idiom the interpreter does not model: the twin is *unavailable* for this kernel (never a
+violation).  Genuine Python run-time errors (ZeroDivisionError, KeyError, ValueError …) are plain
+`.invalid`; IndexError / UnboundLocalError are `.oob` / `.unbound`. -/
+def unsupported (msg : String) : Err := .invalid ("unsupported: " ++ msg)
+
+def _root_.VecModel.Err.isUnsupported : Err → Bool
+  | .invalid m => m.startsWith "unsupported: "
+  | _ => false
+
 def lookup (env : Env) (x : String) : M Val :=
   match env.find? (·.1 == x) with
   | some p => .ok p.2
@@ -155,6 +164,9 @@ def arith (op : BinOp) (a b : Val) : M Val := do
     if q == 0 then throw (.invalid "division by zero")
     let ys ← x.mapM fun v => do let r ← asRat v; pure (Val.rat (r / q))
     return .list ys
+  | _, .list _, _ | _, _, .list _ | _, .tuple _, _ | _, _, .tuple _ | _, .dict _, _ | _, _, .dict _
+  | _, .record _, _ | _, _, .record _ =>
+    throw (unsupported "arithmetic on containers (numpy broadcasting) beyond list+list, list*int, array/scalar")
   | _, _, _ =>
     if isIntLike a && isIntLike b then
       let x ← asInt a
@@ -169,7 +181,7 @@ def arith (op : BinOp) (a b : Val) : M Val := do
       | .lshift => return .int (x * (2 ^ y.toNat))
       | .rshift => return .int (Int.fdiv x (2 ^ y.toNat))
       | .bitand | .bitor | .bitxor =>
-        if x < 0 || y < 0 then throw (.invalid "bit operation on a negative integer (not modelled)")
+        if x < 0 || y < 0 then throw (unsupported "bit operation on a negative integer")
         else
           let (a, b) := (x.toNat, y.toNat)
           match op with
@@ -185,7 +197,7 @@ def arith (op : BinOp) (a b : Val) : M Val := do
       | .mul => return .rat (x * y)
       | .div => if y == 0 then throw (.invalid "division by zero") else return .rat (x / y)
       | .floordiv => if y == 0 then throw (.invalid "division by zero") else return .rat ((x / y).floor)
-      | _ => throw (.invalid "bit operation on non-integers")
+      | _ => throw (unsupported "bit/mod operation on non-integers")
 
 partial def valLt (a b : Val) : M Bool := do
   match a, b with
@@ -210,7 +222,7 @@ def compare (op : CmpOp) (a b : Val) : M Bool := do
     let r ← match b with
       | .dict kv => pure (kv.any (·.1 == a))
       | .list vs | .tuple vs => pure (vs.any (· == a))
-      | _ => throw (.invalid "`in` on unsupported container")
+      | _ => throw (unsupported "`in` on this container")
     return if op matches .in_ then r else !r
 
 /-- normalise a possibly negative Python index; `none` when out of range -/
@@ -245,7 +257,7 @@ partial def getIndex (name : String) (a : Val) (i : Val) : M Val := do
     match normIndex s.length k with
     | some j => return .str (String.singleton (s.toList.getD j ' '))
     | none => throw (.oob name k s.length)
-  | _ => throw (.invalid s!"cannot index {name}")
+  | _ => throw (unsupported s!"cannot index {name}")
 
 def sliceBounds (len : Nat) (lo hi : Option Int) : Nat × Nat :=
   let clamp (i : Int) : Nat :=
@@ -260,7 +272,7 @@ def getSlice (a : Val) (lo hi : Option Int) : M Val := do
   | .list vs => let (l, h) := sliceBounds vs.length lo hi; return .list ((vs.drop l).take (h - l))
   | .tuple vs => let (l, h) := sliceBounds vs.length lo hi; return .tuple ((vs.drop l).take (h - l))
   | .str s => let (l, h) := sliceBounds s.length lo hi; return .str (String.ofList ((s.toList.drop l).take (h - l)))
-  | _ => throw (.invalid "cannot slice")
+  | _ => throw (unsupported "cannot slice")
 
 def setIndex (name : String) (a : Val) (i : Val) (v : Val) : M Val := do
   match a with
@@ -272,7 +284,7 @@ def setIndex (name : String) (a : Val) (i : Val) (v : Val) : M Val := do
   | .dict kv =>
     if kv.any (·.1 == i) then return .dict (kv.map fun p => if p.1 == i then (p.1, v) else p)
     else return .dict (kv ++ [(i, v)])
-  | _ => throw (.invalid s!"cannot assign into {name}")
+  | _ => throw (unsupported s!"cannot assign into {name}")
 
 /-- `a[lo:hi] = v` (numpy: same length, or broadcast of a scalar) -/
 def setSlice (name : String) (a : Val) (lo hi : Option Int) (v : Val) : M Val := do
@@ -285,7 +297,7 @@ def setSlice (name : String) (a : Val) (lo hi : Option Int) (v : Val) : M Val :=
                     else throw (.invalid s!"could not broadcast {ws.length} values into slice of {n} of {name}")
       | s => pure (List.replicate n s)
     return .list (vs.take l ++ src ++ vs.drop h)
-  | _ => throw (.invalid s!"cannot slice-assign into {name}")
+  | _ => throw (unsupported s!"cannot slice-assign into {name}")
 
 def exprName : Expr → String
   | .name x => x
@@ -299,6 +311,26 @@ def stableSortIdx (keys : List Val) : M (List Nat) := do
   let idx := (List.range ks.length).zip ks
   let sorted := idx.mergeSort (fun a b => a.2 ≤ b.2)
   return sorted.map (·.1)
+
+/-- stable insertion of `x` after every element that is not greater (Python's `<` on numbers, strings, tuples) -/
+partial def insertSorted (x : Val) : List Val → M (List Val)
+  | [] => pure [x]
+  | y :: ys => do
+    if ← valLt x y then pure (x :: y :: ys) else pure (y :: (← insertSorted x ys))
+
+/-- `list.sort()` / `np.sort`: numbers through the stable merge sort, anything else (tuples, strings) through a
+stable insertion sort on Python's ordering -/
+def sortVals (xs : List Val) : M (List Val) := do
+  if xs.all (fun v => match v with | .int _ | .rat _ | .bool _ => true | _ => false) then
+    let idx ← stableSortIdx xs
+    pure (idx.filterMap fun i => xs[i]?)
+  else xs.foldlM (fun acc x => insertSorted x acc) []
+
+/-- `np.zeros(n)` / `np.empty(n)`: a negative size is a ValueError -/
+def allocSize (n : Val) : M Nat := do
+  if let .tuple _ := n then throw (unsupported "multi-dimensional allocation")
+  let k ← asInt n
+  if k < 0 then throw (.invalid "ValueError: negative dimensions are not allowed") else pure k.toNat
 
 def searchsortedLeft (a : List Val) (v : Val) : M Nat := do
   let x ← asRat v
@@ -359,7 +391,7 @@ partial def evalExpr (P : Prog) (env : Env) : Expr → M (Val × Env)
       | none => throw (.invalid s!"no field {f}")
     | .list vs, "shape" => pure (.tuple [.int vs.length], env)
     | .list vs, "size" => pure (.int vs.length, env)
-    | _, _ => throw (.invalid s!"attribute {f}")
+    | _, _ => throw (unsupported s!"attribute {f}")
   | .tuple es => do
     let (vs, env) ← evalList P env es
     pure (.tuple vs, env)
@@ -374,7 +406,7 @@ partial def evalExpr (P : Prog) (env : Env) : Expr → M (Val × Env)
     let items ← match it with
       | .list vs | .tuple vs => pure vs
       | .dict kv => pure (kv.map (·.1))
-      | _ => throw (.invalid "cannot iterate in comprehension")
+      | _ => throw (unsupported "cannot iterate in comprehension")
     let mut out : List Val := []
     let mut env' := env
     for v in items do
@@ -422,10 +454,9 @@ partial def evalExpr (P : Prog) (env : Env) : Expr → M (Val × Env)
     | "astype", v, _ => pure (v, env)
     | "copy", v, [] => pure (v, env)
     | "sort", .list xs, [] => do
-      let idx ← stableSortIdx xs
-      let env ← assignTo P env recv (.list (idx.filterMap fun i => xs[i]?))
+      let env ← assignTo P env recv (.list (← sortVals xs))
       pure (.none, env)
-    | _, _, _ => throw (.invalid s!"method {meth}")
+    | _, _, _ => throw (unsupported s!"method {meth}")
   | .call f args => do
     let (vs, env) ← evalList P env args
     match f, vs with
@@ -455,19 +486,16 @@ partial def evalExpr (P : Prog) (env : Env) : Expr → M (Val × Env)
       let k ← asInt v
       pure (.str (String.singleton (Char.ofNat k.toNat)), env)
     | "np.zeros", (n :: _) => do
-      let k ← asInt n
-      pure (.list (List.replicate k.toNat (.int 0)), env)
+      pure (.list (List.replicate (← allocSize n) (.int 0)), env)
     | "np.empty", (n :: _) => do
-      let k ← asInt n
-      pure (.list (List.replicate k.toNat .none), env)       -- uninitialised cells
+      pure (.list (List.replicate (← allocSize n) .none), env)       -- uninitialised cells
     | "np.ones", (n :: _) => do
-      let k ← asInt n
-      pure (.list (List.replicate k.toNat (.bool true)), env)   -- only used as a boolean seed (arr_unique)
+      pure (.list (List.replicate (← allocSize n) (.bool true)), env)   -- only used as a boolean seed (arr_unique)
     | "np.array", [.list xs] | "list", [.list xs] => pure (.list xs, env)
     | "np.concatenate", [.tuple parts] => do
       let ls ← parts.mapM fun p => match p with
         | .list xs => pure xs
-        | _ => throw (.invalid "np.concatenate of a non-array")
+        | _ => throw (unsupported "np.concatenate of a non-array")
       pure (.list ls.flatten, env)
     | "np.flipud", [.list xs] => pure (.list xs.reverse, env)
     | "np.sort", [.list xs] => do
@@ -499,6 +527,7 @@ partial def evalExpr (P : Prog) (env : Env) : Expr → M (Val × Env)
         pure (s, acc.2 ++ [s])) (.int 0, [])
       pure (.list out, env)
     | "np.append", [.list xs, .list ys] => pure (.list (xs ++ ys), env)
+    | "raise", _ => throw (.invalid "exception raised by the kernel")      -- a `raise` statement (py2lean)
     | "set", [] => pure (.list [], env)
     | "set", [.list xs] => pure (.list xs.eraseDups, env)
     | "take", [.list xs, .list idx] => do     -- fancy indexing a[perm]
@@ -524,7 +553,7 @@ partial def evalExpr (P : Prog) (env : Env) : Expr → M (Val × Env)
         | some (_, fields) =>
           if fields.length == vs.length then pure (.record (fields.zip vs), env)
           else throw (.invalid s!"{f}: expected {fields.length} fields")
-        | none => throw (.invalid s!"unknown function {f}/{vs.length}")
+        | none => throw (unsupported s!"unknown function {f}/{vs.length}")
 
 partial def evalOpt (P : Prog) (env : Env) : Option Expr → M (Option Int × Env)
   | none => pure (none, env)
@@ -559,14 +588,14 @@ partial def assignTo (P : Prog) (env : Env) : Expr → Val → M Env
     | .record fs =>
       if fs.any (·.1 == f) then assignTo P env a (.record (fs.map fun p => if p.1 == f then (f, v) else p))
       else throw (.invalid s!"no field {f}")
-    | _ => throw (.invalid s!"attribute assignment {f}")
+    | _ => throw (unsupported s!"attribute assignment {f}")
   | .tuple ts, v => do
     match v with
     | .tuple vs | .list vs =>
       if vs.length != ts.length then throw (.invalid "unpacking length mismatch")
       else (ts.zip vs).foldlM (fun env tv => assignTo P env tv.1 tv.2) env
     | _ => throw (.invalid "cannot unpack")
-  | _, _ => throw (.invalid "bad assignment target")
+  | _, _ => throw (unsupported "assignment target")
 
 partial def execBlock (P : Prog) (env : Env) : List Stmt → M (Ctl × Env)
   | [] => pure (.normal, env)
@@ -618,7 +647,7 @@ partial def execStmt (P : Prog) (env : Env) : Stmt → M (Ctl × Env)
       | [h] => pure ((0 : Int), h, (1 : Int))
       | [l, h] => pure (l, h, (1 : Int))
       | [l, h, s] => pure (l, h, s)
-      | _ => throw (.invalid "range arity")
+      | _ => throw (unsupported "range arity")
     if step == 0 then throw (.invalid "range step 0")
     let count : Nat := if step > 0 then (if hi > lo then ((hi - lo + step - 1) / step).toNat else 0)
                        else (if hi < lo then ((lo - hi + (-step) - 1) / (-step)).toNat else 0)
@@ -630,7 +659,7 @@ partial def execStmt (P : Prog) (env : Env) : Stmt → M (Ctl × Env)
       | .list vs | .tuple vs => pure vs
       | .dict kv => pure (kv.map (·.1))
       | .str s => pure (s.toList.map fun c => Val.str (String.singleton c))
-      | _ => throw (.invalid "cannot iterate")
+      | _ => throw (unsupported "cannot iterate")
     let items := if enumerate then (List.range items.length).zip items |>.map fun p => Val.tuple [.int p.1, p.2]
                  else items
     let bindItem := fun (env : Env) (v : Val) =>
@@ -669,6 +698,6 @@ end
 def callFn (P : Prog) (name : String) (args : List Val) : M (Val × Env) :=
   match P.fns.find? (·.name == name) with
   | some fd => callFnEnv P fd args
-  | none => .error (.invalid s!"unknown function {name}")
+  | none => .error (unsupported s!"unknown function {name}")
 
 end VecModel.Py
